@@ -167,8 +167,8 @@ func TestExplore(t *testing.T) {
 	}
 	nchains, chainLen := 8, 120
 	if tier == "thorough" {
-		maxNodes = 5000
-		nchains, chainLen = 80, 300
+		maxNodes = 3000
+		nchains, chainLen = 50, 300
 	}
 	bundle := &core.Bundle{}
 	st := runStats{PerSystem: map[string][3]int{}}
